@@ -309,6 +309,7 @@ func (g *gen) script() {
 			fmt.Sscanf(rep, "n=%d", &processed)
 			failed = s.errSeen
 			if rep[:4] == "hang" {
+				s.fail("C06 base() does not return although every delivered item has been released (ver=%s zero-share=%v)", s.ver, s.zeroShare())
 				return
 			}
 		} else {
